@@ -88,7 +88,8 @@ def cases(draw: T.Any) -> dict:
                                         st.sampled_from([None, 'runtime', 'devel', 'custom'])), max_size=2, unique_by=lambda x: x[0])),
         # (file, subdir or None); a subdir starting with '@' stands for install_dir: <rest> (incompatible with subdir:)
         'headers': draw(st.lists(st.tuples(st.sampled_from(['h1.h', 'h2.h']), st.sampled_from([None, 'inc', 'a/b', '@cust/hdr', '@share/h x'])), max_size=2, unique_by=lambda x: x[0])),
-        'man': draw(st.lists(st.sampled_from(['foo.1', 'bar.3']), max_size=2, unique=True)),
+        # 'name@locale' = install_man(name, locale: locale): the only install rule that renames the file (name.<locale>.N -> name.N)
+        'man': draw(st.lists(st.sampled_from(['foo.1', 'bar.3', 'baz.fr.1@fr', 'tool.conf.de.5@de']), max_size=3, unique=True)),
         'subdir': draw(st.sampled_from([None, ('tree', 'share/t', None, False), ('tree', 'share/t', 'devel', True)])),
     }
     # an extra executable / static library / custom target placed with build_subdir: (since 1.10: "places the build results
@@ -137,9 +138,10 @@ def extras(c: dict, logdir: str) -> T.Tuple[T.List[str], T.Dict[str, str]]:
     for fn, sd in ins['headers']:
         files[fn] = f'/* {fn} */\n'
         lines.append(f"install_headers({q(fn)}" + ((f", install_dir: {q(sd[1:])}" if sd.startswith('@') else f", subdir: {q(sd)}") if sd else '') + ')')
-    for fn in ins['man']:
+    for ent in ins['man']:
+        fn, _, loc = ent.partition('@')
         files[fn] = f'.TH {fn}\n'
-        lines.append(f"install_man({q(fn)})")
+        lines.append(f"install_man({q(fn)}" + (f", locale: {q(loc)}" if loc else '') + ')')
     if ins['subdir']:
         sd, dest, tag, excl = ins['subdir']
         files[f'{sd}/f1.txt'] = 'f1\n'
@@ -457,6 +459,21 @@ def check_case(c: dict, workdir: str, ev: T.Optional[Evidence], sub: bool = Fals
             if files_got != want:
                 return Failure('install_plan/tag-set-differs', c,
                                f'`meson install --tags {tag}` created {sorted(files_got)} but intro-install_plan.json assigns tag {tag!r} to {sorted(want)}')
+        # ---- the same relations after a second configuration of the same directory -------------------------
+        # (the intro files describe the build "that was actually generated" - also when it was generated by a reconfigure:
+        # every build-definition file is read again then, and has to be listed again)
+        rr = run_sub(['setup', '--reconfigure', bld, src], timeout=300)
+        if rr.rc != 0:
+            return Failure('reconfigure/fails', c, f'meson setup --reconfigure failed on an unchanged project (exit {rr.rc}):\n{rr.text[-1200:]}')
+        bs2 = sorted(os.path.normpath(x) for x in load('buildsystem_files'))
+        bs2 = [x for x in bs2 if x not in cfg_inputs]
+        if bs2 != wantbs:
+            return Failure('buildsystem_files/differs-after-reconfigure', c,
+                           f'after `meson setup --reconfigure` intro-buildsystem_files.json lists {bs2}\n but the build definition consists of {wantbs} '
+                           f'(missing: {sorted(set(wantbs) - set(bs2))}, extra: {sorted(set(bs2) - set(wantbs))})')
+        for name, before in (('installed', installed), ('install_plan', plan)):
+            if load(name) != before:
+                return Failure(f'{name}/changes-on-reconfigure', c, f'intro-{name}.json differs after an unchanged `meson setup --reconfigure`')
         if ev is not None:
             nt = (any(t.get('gen_sources') or t.get('gen_headers') or t.get('generator') for t in model['targets']) or bool(model.get('subproject'))) \
                 and bool(c['tests']) and bool(installed)
